@@ -972,6 +972,31 @@ def rule_hold_bound(prog, res, rule="R-HOLD-BOUND"):
         for b, i, s in g.all_stmts() for y in ir.walk(s)) and paths.natural_loops(g)]
     for gname in sorted(set(loops)):
         n += rule_index_guards(prog, res, [gname], rule=rule, invariant=inv, follow=False)
+    # indices that come from the slowest-reader scan: 0, or a loop index below the count it was given
+    # (R-LIN / reader_min proves that shape); the count given must be holds.n
+    from . import congr as _congr
+    for g in channel_functions(prog):
+        defs = _congr.single_defs(g)
+        for b, i, s_ in g.all_stmts():
+            for y in ir.walk(s_):
+                if not (isinstance(y, dict) and y.get("k") == "idx" and (ir.ap(y.get("b")) or "").endswith(("holds.pos", "holds.cycles"))):
+                    continue
+                iv = ir.strip(y.get("i"))
+                if not (isinstance(iv, dict) and iv.get("k") == "var" and iv.get("id") in defs):
+                    continue
+                d = ir.strip(defs[iv["id"]])
+                if not (isinstance(d, dict) and d.get("k") == "call" and d.get("fn") == "reader_min"):
+                    continue
+                res.touched(g)
+                cnt = d.get("args", [None, None, None])[2] if len(d.get("args", [])) >= 3 else None
+                okc = (ir.ap(ir.strip(cnt)) or "").endswith("holds.n") if isinstance(cnt, dict) else False
+                inst = "%s: %s is indexed with reader_min's result over holds.n readers" % (g.name, ir.render(y.get("b")))
+                n += 1
+                if okc:
+                    res.oblige(rule, inst, True, "0 or a scan index below holds.n (R-LIN reader_min), holds.n <= %d" % slots, g.loc(s_))
+                else:
+                    res.fail(rule, inst, "%s|argmin|%s" % (rule, g.name), g.loc(s_),
+                             "%s indexes the hold table with the result of reader_min called with a count that is not holds.n (%s): the index is not bounded by the table size" % (g.name, ir.render(cnt) if isinstance(cnt, dict) else "?"))
     # refusal
     for f in prog.all_funcs():
         if not f.blocks or f is regf:
